@@ -3,9 +3,11 @@
 package zzverif
 
 import (
+	"context"
 	"errors"
 	"hash"
 	"sort"
+	"time"
 )
 
 // Models: Go implementations that the symbolic executor runs *instead of*
@@ -313,10 +315,10 @@ type Hash struct {
 }
 
 func (h *Hash) Write(p []byte) (int, error) { h.buf = append(h.buf, p...); return len(p), nil }
-func (h *Hash) Sum(b []byte) []byte        { return append(b, HashBytes(h.kind, h.buf, h.size)...) }
-func (h *Hash) Reset()                     { h.buf = nil }
-func (h *Hash) Size() int                  { return h.size }
-func (h *Hash) BlockSize() int             { return 64 }
+func (h *Hash) Sum(b []byte) []byte         { return append(b, HashBytes(h.kind, h.buf, h.size)...) }
+func (h *Hash) Reset()                      { h.buf = nil }
+func (h *Hash) Size() int                   { return h.size }
+func (h *Hash) BlockSize() int              { return 64 }
 
 func M_sha1_New() hash.Hash { return &Hash{kind: 1, size: 20} }
 func M_md5_New() hash.Hash  { return &Hash{kind: 5, size: 16} }
@@ -395,4 +397,19 @@ func M_strconv_Atoi(s string) (int, error) {
 func M_singleflight_Do(g any, key string, fn func() (interface{}, error)) (interface{}, error, bool) {
 	v, err := fn()
 	return v, err, false
+}
+
+// contexts: cancellation is not modelled (the parent is handed through and
+// cancel functions do nothing); deadlines are out of scope of the checks.
+func M_ctx_WithCancel(parent context.Context) (context.Context, context.CancelFunc) {
+	return parent, func() {}
+}
+func M_ctx_WithTimeout(parent context.Context, d time.Duration) (context.Context, context.CancelFunc) {
+	return parent, func() {}
+}
+func M_ctx_WithDeadline(parent context.Context, d time.Time) (context.Context, context.CancelFunc) {
+	return parent, func() {}
+}
+func M_ctx_WithCancelCause(parent context.Context) (context.Context, context.CancelCauseFunc) {
+	return parent, func(error) {}
 }
